@@ -84,7 +84,8 @@ CLAIMED = {
               '(error store checked in the loop before every blocking recv), ERR-STICKY (a stored error is never cleared and is '
               'returned by every later call), EOF-MEANS-END (source EOF without the terminator is an error), ERR-SWALLOW-MT, '
               'SINK-ERR-STICKY (a failed sink write of a dequeued unit moves the writer to its error state), PANIC-WAKE (a worker '
-              'that unwinds while holding a unit posts to the result channel through a drop guard).',
+              'that unwinds while holding a unit posts to the result channel through a drop guard), WRITE-LOOP-PROGRESS (a write-loop '
+              'iteration that copies nothing still reaches the dispatch call).',
               'progress of back-pressure loops, value relations between sequence counters.'),
     'C10': _c('static: lock-set analysis, condvar predicate discipline, call-graph effects',
               'CV-LOCK, CV-NOTIFY (every predicate write is followed by a notify on all paths), LOCK-SCOPE, DROP-CLOSE, SPAWN-BOUND '
